@@ -56,7 +56,7 @@ func (m c13mon) Check(s *sim.Sim, st *sim.Step) []*sim.Violation {
 		// the one allowed exception: a validate (or remove) request consuming the recovery code it presented
 		if d.Field == "RecoveryCodes" && wellFormed && (strings.HasSuffix(a.Kind, "_validate") || strings.HasSuffix(a.Kind, "_remove")) && a.Secret2 != "" {
 			kind := strings.SplitN(a.Kind, "_", 2)[0]
-			sub := subjectPID(rec.SessIn, kind)
+			sub := subjectOf(s, rec, kind)
 			if sub == d.PID && liveRecovery(s, d.PID, a.Secret2) && len(splitCSV(d.New)) == len(splitCSV(d.Old))-1 {
 				m.stats.Count("recovery-code-consumed")
 				continue
@@ -153,7 +153,7 @@ func (m c13mon) Sig(s *sim.Sim, st *sim.Step) string {
 			ch += "+" + d.Field
 		}
 	}
-	return fmt.Sprintf("%s/%s/%s/%s/email=%v/ran=%v/%s%s", route, st.Act.Resolved, sessClass(rec.SessIn), acctClass(s, rec.Before, subjectPID(rec.SessIn, "totp")), s.Cfg.TwoFAEmail, rec.HandlerRan, modeOf(s.Cfg), ch)
+	return fmt.Sprintf("%s/%s/%s/%s/email=%v/ran=%v/%s%s", route, st.Act.Resolved, sessClass(rec.SessIn), acctClass(s, rec.Before, subjectOf(s, rec, "totp")), s.Cfg.TwoFAEmail, rec.HandlerRan, modeOf(s.Cfg), ch)
 }
 
 var c13Templates = []sim.Template{
